@@ -136,9 +136,7 @@ class Case:
         self.stateless = True   # set False for cases whose impl() legitimately depends on process state
 
 
-def run_driver(lines, timeout=600):
-    if not lines:
-        return []
+def _run_driver_once(lines, timeout):
     data = "\n".join(lines) + "\n"
     p = subprocess.run([DRIVER], input=data.encode(), stdout=subprocess.PIPE,
                        stderr=subprocess.PIPE, timeout=timeout)
@@ -149,6 +147,35 @@ def run_driver(lines, timeout=600):
         raise RuntimeError("driver failed: rc={} lines={}/{} stderr={}".format(
             p.returncode, len(out), len(lines), p.stderr.decode()[:500]))
     return out
+
+
+def run_driver(lines, timeout=600):
+    """answers of the Lean driver, one per request line, in order.  The driver is a pure function of each line, so a
+    batch with very long requests (graphs with 10^4 edges cost seconds each in the model) is spread over a few driver
+    processes; the answers are the same."""
+    if not lines:
+        return []
+    heavy = [i for i, l in enumerate(lines) if len(l) > 20000]
+    if len(heavy) < 2:
+        return _run_driver_once(lines, timeout)
+    from concurrent.futures import ThreadPoolExecutor
+    k = min(4, len(heavy))
+    chunks = [[] for _ in range(k)]
+    load = [0] * k
+    for i in sorted(heavy, key=lambda i: -len(lines[i])):
+        j = load.index(min(load))
+        chunks[j].append(i)
+        load[j] += len(lines[i]) ** 2
+    hs = set(heavy)
+    chunks.append([i for i in range(len(lines)) if i not in hs])
+    chunks = [sorted(c) for c in chunks if c]
+    with ThreadPoolExecutor(max_workers=len(chunks)) as ex:
+        outs = list(ex.map(lambda c: _run_driver_once([lines[i] for i in c], timeout), chunks))
+    res = [None] * len(lines)
+    for c, o in zip(chunks, outs):
+        for i, a in zip(c, o):
+            res[i] = a
+    return res
 
 
 def run_impl(case):
